@@ -70,7 +70,7 @@ CHECKS = {
                 text="Norm.tla generates Norm-conforming .c and .h translation units line by line together with the scope chain the engine must keep; TLC explores every body structure "
                      "of a small bound exhaustively and the full grammar in simulation, checking that the tabs written equal the engine's indentation, widths stay <= 80 and counters "
                      "within limits. Every derivation is concretised and run: verdict OK, no Error-level diagnostic, no fatal error; a sample through the real command line.",
-                note="the conforming grammar is my reading of the Norm (DESIGN 4.1); simulation is seeded; expression table of Expr.tla swept exhaustively in the thorough tier"),
+                note="the conforming grammar is my reading of the Norm (DESIGN 4.1); simulation is seeded; every run also checks EngineAgrees (NormEngine.tla: the implementation-shaped Engine.tla, fed with the program's statement events, ends in the scope chain the grammar assumed)"),
     "C07": dict(ref="§4.7", tech="TLC exploration of Norm.tla (statement kind + scope chain per line; DepthZeroAtTop) + statement events observed at Context.pop_tokens compared with the derivation; Garbage.tla insertions replayed; TLC model checking of EngineMC.tla + TLC trace validation of recorded statement traces (EngineTrace.tla)",
                 text="Each derivation of Norm.tla carries, per line, the statement the engine must report. The events observed at Context.pop_tokens for the concretised program must "
                      "tile the token list, each consume at least one token, be exactly as many as the derivation has lines, start in column 1, end with NEWLINE, and the scope must be "
